@@ -2,7 +2,7 @@
    For every save interval k >= 1, every update function that answers, every initial state, every
    stop time: statements about the loop with the stop test before the update (the repaired code). *)
 From Coq Require Import List Arith Bool ZArith.
-From PyTdgl Require Import Model.Runner Proofs.RunnerP.
+From PyTdgl Require Import Model.Runner Proofs.RunnerP Proofs.PauseP.
 Import ListNotations.
 
 Section C05.
@@ -95,3 +95,21 @@ Theorem C05_as_found_refuted :
             /\ f_step _ _ _ f = 5 /\ f_vals _ _ _ f = 6.
 Proof. exact frame_content_as_found_refuted. Qed.
 Print Assumptions C05_as_found_refuted.
+
+(* pause_on_interrupt = True, answer "y": whatever attempts of whatever steps are interrupted and resumed, the (repaired) loop ends
+   exactly like the loop that was never interrupted - same end, same state, hence the same frames, labels, times and records *)
+Theorem C05_pause_resume_transparent :
+  forall (Tm : Type) (tadd : Tm -> Tm -> Tm) (tleb : Tm -> Tm -> bool) (St Rec : Type)
+         (upd : nat -> Tm -> Tm -> St -> outcome Tm St Rec) (k : nat) (stop_first : bool) (paused : nat -> nat -> bool)
+         (save : bool) (e : Tm) (fuel : nat) (s0 : rstate Tm St Rec) (r : stage_end) (s' : rstate Tm St Rec),
+    stage_p Tm tadd tleb St Rec upd k stop_first paused true fuel save e 0 0 false s0 = (r, s') -> r <> OutOfFuel ->
+    exists fuel', stage Tm tadd tleb St Rec upd k stop_first fuel' save e 0 s0 = (r, s').
+Proof. exact pause_resume_run. Qed.
+Print Assumptions C05_pause_resume_transparent.
+
+(* as found, a single resumed pause shifted every later frame label by one update *)
+Theorem C05_pause_as_found_refuted :
+  labels_vals (stage_p Z Z.add Z.leb nat Z cnt_ok 2 true pause_at_1 false 20 true 4%Z 0 0 false (mkR Z nat Z 0%Z 1%Z 0 [] []))
+  <> labels_vals (stage Z Z.add Z.leb nat Z cnt_ok 2 true 20 true 4%Z 0 (mkR Z nat Z 0%Z 1%Z 0 [] [])).
+Proof. exact pause_as_found_refuted. Qed.
+Print Assumptions C05_pause_as_found_refuted.
